@@ -89,6 +89,14 @@ CaseOf(x) == LET vs == Vals(x) IN
 
 Emit == Selected => PrintT(ToJson(CaseOf(t)))
 
+\* ------------------------------------------------------------------ laws of the specification itself (checked on the selected terms)
+\* "the method set of *T also contains the method set of T"
+LawPointerMethodSet == Selected /\ KindOf(t) \notin {"interface", "ptr"} => MSetV(t) \subseteq MSetP(t)
+\* values equal as distinct objects are equal to themselves; a listed method can be called unless a nil is on the way
+LawDeepEqual == Selected => \A i \in 1..Len(Vals(t)) : DeepEq(Vals(t)[i], Vals(t)[i]) => SelfEq(Vals(t)[i])
+\* every text of the fmt fragment is defined for %v exactly when it is for %+v, and %#v never invokes a method
+LawVerbs == Selected => \A i \in 1..Len(Vals(t)) : ArgOK("v", Vals(t)[i]) = ArgOK("P", Vals(t)[i])
+
 \* ------------------------------------------------------------------ fixed terms (independent of Sel): every run contains
 \* them, so that a finding about one of them has the same key for every seed.  In this mode h indexes Fixed.
 TagStruct == Struct(<<Fld(TRUE, IntT, Tag2, FALSE)>>)
